@@ -116,6 +116,26 @@ CHECKS = {
   note="Trusted: the reference codec (wire/frame.go, ~100 lines from documentation/protocol.md), CPython, the stub TProtocolException class. The unexported test-only unmarshalFrame is not covered (unreachable from the API)."),
 }
 
+# workload dimensions / oracles added in seeding round 8 (appended to the technique text)
+ROUND8 = {
+ "C01": "; prompt-reply trial with a no-progress rule decided by the goroutine-dump lock-deadlock criterion; wall-clock watchdog around the supervised monitor (inconclusive)",
+ "C03": "; fixed fidelity fixture in a supervised child: request/reply frame sizes swept in one-byte steps across the 4096/8192 buffer boundaries of the stream legs, (nil, nil) handler outcomes for every nillable result kind with crash attribution to the case in flight",
+ "C04": "; reserved-name values as a foreign peer may write them (_opid/_cid of 8 shapes, enumerated sub-space) with a reply-block oracle on the context returned by ReadRequestHeader",
+ "C06": "; held-up requester leg (requester parked at every FContext access until the wire has settled, responder answering at once) and send-failure-of-another-request leg over a fault stream",
+ "C07": "; topic families around the transports' own word (T, frugal.T, frugal.frugal.T) with a wildcard tap",
+ "C08": "; white space and comments after the prefix keyword; static prefix words spelled like / containing a variable of the same prefix",
+ "C09": "; onward calls made on the inbound context itself (not only on clones) in the two-hop histories, sequential model of the caller-visible response headers",
+ "C10": "; in-process re-parse histories of one path whose files are edited between parses (dump must equal the canonical form of the current text, failing step re-checked at a fresh path)",
+ "C11": "; regeneration histories into an -out directory holding an earlier revision / option set (only files written by the judged run are judged); near-miss identifiers in every identifier position on the invalid-input side",
+ "C13": "; registry-busy cases (registry lock held from the request.timedOut yield point: returning before the release = registration left behind) and per-return registration accounting in concurrent bursts",
+ "C14": "; reply sizes spread below a caller-announced HTTP limit (limit derived from the measured reply of the same frame)",
+ "C16": "; response-lost-after-processing phase on the HTTP leg (lossy server keyed on the correlation id in the received frame) with an at-most-once-per-layer oracle",
+ "C19": "; hostile characters in directory names of the source root and of -out",
+ "C20": "; reply-less messages in the pre-Stop stream; link blip with recovery while accepted requests drain (replies judged after the connection is CONNECTED again)",
+}
+for _k, _v in ROUND8.items():
+    CHECKS[_k]["technique"] += _v
+
 def main():
     props = [json.loads(l) for l in open(os.path.join(ROOT, "properties.jsonl"))]
     checks, na = [], []
